@@ -61,8 +61,11 @@ def inlined(lang, wf, bits, source_types):
     from transforge import expr as E
     from rdflib import BNode
     exprs = {}
+    from transforge import type as T
     for s in wf["sources"]:
-        exprs[s] = E.Source(source_types[s]) if source_types.get(s) is not None else E.Source()
+        st = source_types.get(s)
+        # (a source whose uses determine no type is unconstrained: a source of its own, whatever variable object source_types handed out)
+        exprs[s] = E.Source(st) if st is not None and not isinstance(st.follow(), T.TypeVariable) else E.Source()
     for out, text, ins in wf["apps"]:
         exprs[out] = lang.parse_expr(text, *[exprs[x] for x in ins])
     consumed = {x for _, _, ins in wf["apps"] for x in ins}
@@ -243,6 +246,8 @@ def one_workflow(ctx, li, spec, ops, opdecls, lang, listed, wf, bits, passthroug
     elif not passthrough:
         no_passthrough_oracle(ctx, wf, g, m, lang, replay)
         source_type_oracle(ctx, wf, g, m, lang, bits, replay)
+    if passthrough:
+        source_type_oracle(ctx, wf, g, m, lang, bits, replay, passthrough=True)
 
 
 def no_passthrough_oracle(ctx, wf, g, m, lang, replay):
@@ -267,8 +272,8 @@ def no_passthrough_oracle(ctx, wf, g, m, lang, replay):
             return
 
 
-def source_type_oracle(ctx, wf, g, m, lang, bits, replay):
-    """without passthrough each source gets the most general type acceptable to all of its uses. Two necessary conditions are checked against
+def source_type_oracle(ctx, wf, g, m, lang, bits, replay, passthrough=False):
+    """each source gets the most general type acceptable to all of its uses. Two necessary conditions are checked against
     types computed independently of add_workflow: (acceptable) every tool's expression still type-checks when each workflow source is given
     the type its node carries (a source whose node has no type, or Top, counts as Top) and every tool-output input is a fresh source;
     (most general) the type of each source in ONE valid typing - all tools parsed over shared, unfixed source objects, then fixed - is a
@@ -299,10 +304,15 @@ def source_type_oracle(ctx, wf, g, m, lang, bits, replay):
             return          # a non-canonical (blank node) type: not compared here
     try:
         stypes = {str(k)[len(W.NS):]: t for k, t in W.make_dict(wf).source_types(lang)}
-        src = {s_: (E.Source(stypes[s_]) if stypes.get(s_) is not None else E.Source()) for s_ in wf["sources"]}
+        src = {s_: (E.Source(stypes[s_]) if stypes.get(s_) is not None and not isinstance(stypes[s_].follow(), T.TypeVariable) else E.Source())
+               for s_ in wf["sources"]}
         exprs = []
+        made = {}
         for out, text, ins in wf["apps"]:
-            exprs.append(lang.parse_expr(text, *[src[x] if x in src else E.Source() for x in ins]))
+            # with passthrough the producer's expression itself is the input; without, a fresh stand-in source
+            e = lang.parse_expr(text, *[src[x] if x in src else (made[x] if passthrough else E.Source()) for x in ins])
+            made[out] = e
+            exprs.append(e)
         for e in exprs:
             e.fix()
     except Exception as ex:  # noqa
@@ -316,9 +326,9 @@ def source_type_oracle(ctx, wf, g, m, lang, bits, replay):
         if not all(x in fixed or x not in src for x in ins):
             continue
         try:
-            lang.parse_expr(text, *[fixed[x] if x in fixed else E.Source() for x in ins])
+            lang.parse_expr(text, *[fixed[x] if x in fixed else E.Source() for x in ins])     # (tool outputs as fresh sources in either mode: weaker, still necessary)
         except Exception as ex:  # noqa
-            ctx.fail(f"workflow {wf} without passthrough: the sources carry the types { {k: str(v) for k, v in carried.items()} }, but tool {out} = `{text}` over "
+            ctx.fail(f"workflow {wf} ({'with' if passthrough else 'without'} passthrough): the sources carry the types { {k: str(v) for k, v in carried.items()} }, but tool {out} = `{text}` over "
                      f"{ins} does not accept them ({type(ex).__name__}): not a type acceptable to all uses",
                 {"check": "source-type-acceptable"}, replay)
             return
@@ -330,11 +340,11 @@ def source_type_oracle(ctx, wf, g, m, lang, bits, replay):
             if any(isinstance(x, T.TypeVariable) for x in t):
                 continue
             if carried[s_].operator == T.Top and t.operator != T.Top:
-                ctx.fail(f"workflow {wf} without passthrough: source {s_} carries no type, but its uses bound it: {t} is what one valid typing gives it",
+                ctx.fail(f"workflow {wf} ({'with' if passthrough else 'without'} passthrough): source {s_} carries no type, but its uses bound it: {t} is what one valid typing gives it",
                     {"check": "source-type-lost"}, replay)
                 return
             if t.is_subtype(carried[s_]) is not True:
-                ctx.fail(f"workflow {wf} without passthrough: source {s_} carries type {carried[s_]}, but {t} is acceptable to all its uses and is not a subtype of it",
+                ctx.fail(f"workflow {wf} ({'with' if passthrough else 'without'} passthrough): source {s_} carries type {carried[s_]}, but {t} is acceptable to all its uses and is not a subtype of it",
                     {"check": "source-most-general-type"}, replay)
                 return
 
